@@ -303,6 +303,10 @@ func DrawScript(r *Rng, cfg ScriptConfig, m *ModuleSpec, name string) proto.GenS
 					}
 					rule.Render = append(rule.Render, proto.Part{Names: true, Flip: flip})
 				}
+				if (td.Kind == "struct" || td.Kind == "generic") && r.P(0.3) {
+					// what do the fields' comments say?
+					rule.Render = append(rule.Render, proto.Part{FieldDocs: true})
+				}
 				if imps := m.Pkgs[pi].Imports; len(imps) > 0 && r.P(0.2) {
 					// where does a type of an imported package live?
 					j := Pick(r, imps)
